@@ -15,6 +15,9 @@ Oracle on the real code (independent of the Lean model):
     it — is reported as C07:undescribed-collector-not-restrictable (a known finding; the hypothesis ClaimsCover of
     restricted_is_filter excludes exactly it, theorem claims_cover_needed exhibits it)
   * collect() is invoked only on collectors claiming one of the names, at most once each
+  * the API takes `Iterable[str]`: every name selection reaches the real restricted_registry() in a randomly drawn container
+    kind (list, tuple, set, frozenset, dict keys view, generator, iter(list), map object, filter object, list with
+    duplicates) — same expected result for all
   * time-varying collectors (oracle only): collectors whose described / collected families change between calls (a
     history op switches their phase); while registered a collector claims what it described AT REGISTRATION; once
     unregistered nothing of it may be yielded or called, through whatever name
@@ -191,6 +194,36 @@ KEPT_CORPUS = [
 ]
 
 
+CONTAINERS = ['list', 'tuple', 'set', 'frozenset', 'dict-keys', 'generator', 'iter(list)', 'map(str, list)',
+              'list-with-duplicates', 'filter-object']
+
+
+def make_container(kind, names):
+    """the name selection as the API may receive it (`Iterable[str]`), incl. one-shot iterables"""
+    names = list(names)
+    if kind == 'list':
+        return list(names)
+    if kind == 'tuple':
+        return tuple(names)
+    if kind == 'set':
+        return set(names)
+    if kind == 'frozenset':
+        return frozenset(names)
+    if kind == 'dict-keys':
+        return dict.fromkeys(names).keys()
+    if kind == 'generator':
+        return (n for n in names)
+    if kind == 'iter(list)':
+        return iter(names)
+    if kind == 'map(str, list)':
+        return map(str, names)
+    if kind == 'list-with-duplicates':
+        return names + names[::-1]
+    if kind == 'filter-object':
+        return filter(None, names + [''])
+    raise ValueError(kind)
+
+
 def parse_fam(e):
     f = e.split(':')
     return f[:4], ([] if f[4] == '_' else f[4].split('+'))
@@ -241,19 +274,19 @@ class Runner:
         if n < MAX_REPORTS_PER_SIG:
             self.ctx.fail(sig, what, case)
 
-    def query(self, prep, case, rr, names, regs, ti, full, covers, exact_ok, kept=None):
+    def query(self, prep, case, rr, names, regs, ti, full, covers, exact_ok, kept=None, container='list'):
         """collect through the restricted-registry object `rr` NOW and evaluate the oracle against the CURRENT full
         collection `full` / CURRENT registered collectors `regs`.  `kept` = (made after k calls, queried after j calls)
         for a long-lived object, None for one made for this query.  Returns (families, calls, expected filter) or None."""
         ctx = self.ctx
         ns = set(names)
         if kept is None:
-            rcase = dict(case, namesets=[sorted(ns)], watch=[])
-            where = 'names %r' % sorted(ns)
+            rcase = dict(case, namesets=[sorted(ns)], watch=[], container=container)
+            where = 'names %r passed as %s' % (sorted(ns), container)
         else:
-            rcase = dict(case, ops=case['ops'][:kept[1]], namesets=[], watch=[[kept[0], sorted(ns)]])
-            where = ('names %r, restricted registry made after %d call(s) and collected again after %d call(s) [%s]'
-                     % (sorted(ns), kept[0], kept[1], ' '.join(map(base.enc_op, rcase['ops']))))
+            rcase = dict(case, ops=case['ops'][:kept[1]], namesets=[], watch=[[kept[0], sorted(ns)]], container=container)
+            where = ('names %r passed as %s, restricted registry made after %d call(s) and collected again after %d call(s) [%s]'
+                     % (sorted(ns), container, kept[0], kept[1], ' '.join(map(base.enc_op, rcase['ops']))))
         del prep.log[:]
         try:
             res = [prep.enc_family(m) for m in rr.collect()]
@@ -269,6 +302,7 @@ class Runner:
                          'full': [bytes.fromhex(e.split(':')[0]).decode() for e in full],
                          'restricted': [bytes.fromhex(e.split(':')[0]).decode() for e in res], 'calls': calls})
         ctx.count('nameset-size-%d' % min(len(ns), 8) if kept is None else 'kept-object-queries')
+        ctx.count('names-passed-as-' + container)
         # calls only on (current) claimants
         claimants = [cid for cid in regs if set(prep.claims(cid)) & ns]
         extra = [c for c in calls if c not in claimants]
@@ -332,6 +366,10 @@ class Runner:
                       % (where, show(A), show(E)), rcase)
         return res, calls, expected
 
+    def pick_container(self, case):
+        """how the name selection is handed to restricted_registry(): fixed by a replayed case, else drawn per query"""
+        return case.get('container') or self.ctx.rng.choice(CONTAINERS)
+
     def one(self, case, namesets=None, n_random_sets=8, watch=None, n_random_watch=3):
         ctx = self.ctx
         prep = base.Prepared(case)
@@ -389,11 +427,12 @@ class Runner:
             # -- objects made now
             for k, ns in watch:
                 if k == j:
-                    kept.append([k, ns, reg.restricted_registry(list(ns)), []])
+                    kind = self.pick_container(case)
+                    kept.append([k, ns, reg.restricted_registry(make_container(kind, ns)), [], kind])
             # -- every kept object must reflect the registry as it is NOW
             for w in kept:
                 w[3].append(self.query(prep, case, w[2], w[1], regs, ti, st['full'], st['covers'], st['exact_ok'],
-                                       kept=(w[0], j)))
+                                       kept=(w[0], j), container=w[4]))
 
         c06_fails = []
         obs, reg = base.run_history(prep, case['ops'], lambda sig, what, step: c06_fails.append(sig), after_step=after_step)
@@ -404,8 +443,11 @@ class Runner:
         if namesets is None:
             namesets = random_namesets(ctx.rng, name_universe(prep, regs), n_random_sets)
         ctx.count('registry-claims-cover' if st['covers'] else 'registry-claims-do-not-cover')
-        results = [self.query(prep, case, reg.restricted_registry(list(names)), names, regs, ti, st['full'], st['covers'],
-                              st['exact_ok']) for names in namesets]
+        results = []
+        for names in namesets:
+            kind = self.pick_container(case)
+            results.append(self.query(prep, case, reg.restricted_registry(make_container(kind, names)), names, regs, ti,
+                                      st['full'], st['covers'], st['exact_ok'], container=kind))
         if any(o[0] == 'm' for o in case['ops']):
             # the model treats a collector as a value; histories that mutate a collector are checked by the oracle only
             ctx.count('oracle-only-histories-with-mutating-collector')
@@ -622,7 +664,7 @@ def replay(ctx, case):
         return 1 if ctx.failures else 0
     rn.one(c, namesets=c.get('namesets') or [], watch=c.get('watch') or [])
     rn.flush()
-    print('history:', ' '.join(map(base.enc_op, c['ops'])), '| name sets:', c.get('namesets'), '| kept objects (made after k calls, names):', c.get('watch'))
+    print('history:', ' '.join(map(base.enc_op, c['ops'])), '| name sets:', c.get('namesets'), '| kept objects (made after k calls, names):', c.get('watch'), '| names passed as:', c.get('container'))
     for f in ctx.failures:
         print('REPLAY-FAIL', f['sig'], f['what'])
     for d in ctx.divergences:
